@@ -161,7 +161,7 @@ class Ctx:
 
         fn/args   : driver function and Python argument values
         impl_out  : canonical output string of the implementation (enc()/run_impl())
-        q         : None (no Q run) | 'exact' | ('abs', tol) | ('rel', tol)   rule for float tokens
+        q         : None (no Q run) | 'exact' | ('abs', tol) | ('rel', tol) | ('absmod', tol, modulus)   rule for float tokens
         f         : whether the binary64 model must agree bit for bit
         """
         argstr = ' '.join(enc(a) for a in args)
@@ -244,8 +244,13 @@ def compare_cases(ctx):
                             if dev != 0:
                                 bad = 'value'; break
                         else:
-                            mode, tol = q
-                            lim = Fraction(tol) if mode == 'abs' else Fraction(tol) * max(1, abs(qa))
+                            mode, tol = q[0], q[1]
+                            if mode == 'absmod':
+                                # ('absmod', tol, modulus): agreement up to a multiple of the modulus
+                                md = Fraction(q[2])
+                                dev = dev % md
+                                dev = min(dev, md - dev)
+                            lim = Fraction(tol) if mode in ('abs', 'absmod') else Fraction(tol) * max(1, abs(qa))
                             ctx.deviation(fn, float(dev))
                             if dev > lim:
                                 bad = 'value dev=%g' % float(dev); break
